@@ -39,21 +39,36 @@ def VocabData.vocab (D : VocabData) : Vocab where
   size := D.values.length
 
 /-- the loop of `Vocabulary.SpecialVocabulary()`: the two gemma-3 turn markers by NAME, everything else by
-    `Types[i] == TOKEN_TYPE_CONTROL`; `none` = index out of range (`Types` shorter than `Values`) -/
-def specialStringsFrom (types : List Nat) : List Str → Nat → Option (List Str)
+    `Types[i] == TOKEN_TYPE_CONTROL`; `none` = index out of range (`Types` shorter than `Values` and a value that is
+    not a turn marker is reached: the call PANICS).
+    `skipEmpty` is the variant flag of finding `empty-special-hang`: `false` = the tree as pinned (an empty string
+    typed CONTROL is returned as a special token, and `Encode` then never terminates), `true` = the repaired loop
+    (`if v.Values[i] == "" { continue }` in front, so no `Types` access for it either). -/
+def specialStringsFrom (skipEmpty : Bool) (types : List Nat) : List Str → Nat → Option (List Str)
   | [], _ => some []
   | v :: vs, i =>
-    if v = startOfTurn ∨ v = endOfTurn then (specialStringsFrom types vs (i + 1)).map (v :: ·)
+    if skipEmpty = true ∧ v = [] then specialStringsFrom skipEmpty types vs (i + 1)
+    else if v = startOfTurn ∨ v = endOfTurn then (specialStringsFrom skipEmpty types vs (i + 1)).map (v :: ·)
     else match types[i]? with
       | none => none
       | some t =>
-        (specialStringsFrom types vs (i + 1)).map fun rest => if t = tokenTypeControl then v :: rest else rest
+        (specialStringsFrom skipEmpty types vs (i + 1)).map fun rest => if t = tokenTypeControl then v :: rest else rest
 
-def VocabData.specialStrings (D : VocabData) : Option (List Str) := specialStringsFrom D.types D.values 0
+def VocabData.specialStrings (D : VocabData) (skipEmpty : Bool) : Option (List Str) :=
+  specialStringsFrom skipEmpty D.types D.values 0
 
-/-- the special tokens as `Encode` uses them: `id := vocab.Encode(special)`; `lit` is the literal searched in the
-    text (`toLit` = UTF-8 bytes for BPE whose texts are bytes, identity for SPM whose texts are code points) -/
-def VocabData.specials (D : VocabData) (toLit : Str → Str) : List Special :=
-  (D.specialStrings.getD []).map fun s => ⟨toLit s, s, (D.vocab.tokId s).getD 0⟩
+/-- the special tokens as `Encode` uses them, given the list `sps` that `SpecialVocabulary()` returned:
+    `id := vocab.Encode(special)`; `lit` is the literal searched in the text (`toLit` = UTF-8 bytes for BPE whose
+    texts are bytes, identity for SPM whose texts are code points) -/
+def VocabData.specialsOf (D : VocabData) (toLit : Str → Str) (sps : List Str) : List Special :=
+  sps.map fun s => ⟨toLit s, s, (D.vocab.tokId s).getD 0⟩
+
+/-- the oracle's view: no special tokens when `SpecialVocabulary()` panics (the oracle reports the panic itself) -/
+def VocabData.specials (D : VocabData) (skipEmpty : Bool) (toLit : Str → Str) : List Special :=
+  D.specialsOf toLit ((D.specialStrings skipEmpty).getD [])
+
+/-- `Scores[id]` is read for the id of every merge candidate: a `Scores` slice shorter than `Values` makes
+    `SentencePieceModel.Encode` panic (index out of range) as soon as such a candidate is found -/
+def VocabData.ScoresOk (D : VocabData) : Prop := D.values.length ≤ D.scores.length
 
 end OllamaVerif.Tok
